@@ -305,6 +305,55 @@ func TestC19(t *testing.T) {
 			served++
 			st.Count("burst_served", 1)
 		}
+		// collapse: a full window of pushes fails at once (endpoint outage) — the window shrinks but never
+		// below 1, and the failed messages are pushed again after their back-off
+		if len(st.Violations) == 0 {
+			w2 := *w
+			window := pusher.CurrentFlowControl().MaxMessages
+			b := window
+			if b > 12 {
+				b = 12
+			}
+			var msgs []MsgSpec
+			for i := 0; i < b; i++ {
+				msgs = append(msgs, MsgSpec{N: 15000 + i})
+			}
+			w2.execInner(Op{K: "publish", Topic: "t", Msgs: msgs}, &Result{T: w.Now()})
+			var held []*pushReq
+			for len(held) < b {
+				r := next()
+				if r == nil {
+					time.Sleep(time.Second)
+					if r = next(); r == nil {
+						break
+					}
+				}
+				held = append(held, r)
+			}
+			for _, r := range held {
+				r.respond <- pushResp{code: 500}
+			}
+			synctest.Wait()
+			if wdw := pusher.CurrentFlowControl().MaxMessages; wdw < 1 || wdw > 1000 {
+				violate("window", fmt.Sprintf("after %d simultaneous failures with a window of %d the window is %d, outside 1..1000", len(held), window, wdw), fmt.Sprint(wdw))
+			}
+			// the failed messages come back
+			again := 0
+			for tries := 0; tries < 40 && again < len(held); tries++ {
+				r := next()
+				if r == nil {
+					time.Sleep(500 * time.Millisecond)
+					continue
+				}
+				r.respond <- pushResp{code: 204}
+				again++
+			}
+			if again < len(held) && len(st.Violations) == 0 {
+				violate("not-pushed-again", fmt.Sprintf("%d pushes failed at once; only %d of them were pushed again within 20 s (window now %d)", len(held), again, pusher.CurrentFlowControl().MaxMessages), fmt.Sprint(again))
+			}
+			synctest.Wait()
+			st.Count("collapse_served", len(held)+again)
+		}
 		// long climb: batches of simultaneous fast successes
 		// until the window has had the chance to pass its cap
 		if len(st.Violations) == 0 {
